@@ -457,7 +457,7 @@ package keeper
 //@   requires keys != nil && amounts != nil && !isnil(amounts.UndelegatableShare) && len(operatorAddress) > 0
 //@   requires err == nil
 //@   modifies state(ctx)
-//@   ensures[C02.aows.all]   err == nil ==> !r0
+//@   ensures[C02.aows.all,C03.aows.all] err == nil ==> !r0
 //@   ensures[C02.aows.share] err == nil && keys.OperatorAddr == accstr(operatorAddress) ==>
 //@        opSelf(ctx, accstr(operatorAddress), keys.AssetID) == old(opSelf(ctx, accstr(operatorAddress), keys.AssetID)) + val(amounts.UndelegatableShare)
 //@   ensures[C02.aows.other] keys.OperatorAddr != accstr(operatorAddress) ==> state(ctx) == old(state(ctx)) && err == nil
